@@ -346,6 +346,29 @@ def leak_model(got: List[Any], shapes: List[Dict[str, Any]], shared: bool = Fals
     return shared or gi == len(got)
 
 
+def variable_type_mismatches(schema, doc):
+    """[(variable, type of the argument it is bound to, declared type)] for every variable used directly as an argument value."""
+    from graphql import ArgumentNode, TypeInfo, TypeInfoVisitor, VariableNode, Visitor, print_ast, visit
+    ti = TypeInfo(schema)
+    uses = []
+
+    class V(Visitor):
+        def enter_argument(self, node, *_):
+            arg = ti.get_argument()
+            if isinstance(node.value, VariableNode) and arg is not None:
+                uses.append((node.value.name.value, str(arg.type)))
+
+    visit(doc, TypeInfoVisitor(ti, V()))
+    out = []
+    for d in doc.definitions:
+        for vd in getattr(d, "variable_definitions", None) or ():
+            got = print_ast(vd.type)
+            for name, want in uses:
+                if name == vd.variable.name.value and want != got:
+                    out.append((name, want, got))
+    return out
+
+
 def worker(case: Dict[str, Any]) -> CaseResult:
     from graphql import build_schema, parse, specified_rules, type_from_ast, validate, validate_schema
 
@@ -528,6 +551,11 @@ def worker(case: Dict[str, Any]) -> CaseResult:
                 declared = [vd.variable.name.value for vd in op.variable_definitions]
                 if len(declared) != len(set(declared)):
                     violations.append(Violation(PROP, "variables-declared-once", "expression %d: %r" % (ei, declared), fl, replay_case, mech="c14:declared-once"))
+                # (validation alone lets a nullable variable into a non-null position that has a default: the statement asks for the argument's exact type)
+                for vname, want_t, got_t in variable_type_mismatches(schema_ref, doc):
+                    violations.append(Violation(PROP, "variable-exact-type", "expression %d: $%s is declared %s, the argument it is bound to has type %s\n%s" % (
+                        ei, vname, got_t, want_t, body["query"][:400]), fl, replay_case, mech="c14:variable-exact-type"))
+                count("variable_types_checked", len(declared))
                 if status != "ok":
                     violations.append(Violation(PROP, "executes", "expression %d: %s: %s" % (ei, type(value).__name__, str(value)[:300]), fl, replay_case,
                                                 mech="c14:executes"))
